@@ -1,7 +1,7 @@
 from algo_prop import make
 ALGOS = ['DOO', 'SOO', 'SequOOL', 'StoSOO', 'StroquOOL', 'POO', 'GPO', 'PCT', 'VPCT']
 budget, explore, search, replay = make("C07", ALGOS, quick_per_algo=12, thorough_per_algo=100, salt=700)
-LEAN_EXTRA = ["PyXABProofs.Props.C07sweep", "PyXABProofs.Props.C07seq", "PyXABProofs.Props.C09", "PyXABProofs.Props.C10", "PyXABProofs.Props.StroquOOL"]
+LEAN_EXTRA = ["PyXABProofs.Lemmas.OT_Bridge", "PyXABProofs.Generated.OrderTieC07", "PyXABProofs.Props.C07sweep", "PyXABProofs.Props.C07seq", "PyXABProofs.Props.C09", "PyXABProofs.Props.C10", "PyXABProofs.Props.StroquOOL"]
 RULE = ("the documented pull/receive loop on the real classes: algorithm x partition class (K 2..5) x dimension 1..3 x box shape x "
         "parameters from the documented ranges x ten reward modes (dyadic noise, all-negative, zero, constant, few-valued ties, "
         "alternating sign, large, objective+noise) x five split-fraction modes, 20..150 rounds, time labels t0+i, recommendation "
@@ -12,3 +12,11 @@ ASSUMPTIONS = ["theorems are about the Lean models of DOO, SOO, SequOOL, StoSOO,
                "object and cross-checked to 1e-9)",
                "score theorems hold for every linear order of scores and every formula record; IEEE rounding is not modelled"]
 TRUSTED = ["harness/algo_cases.py, harness/monitors.py, harness/common.py (instrumented partition subclasses, RNG patching)", "lean/PyXABModel/Drv (driver)"]
+
+
+def regenerate(tier):
+    """translator ties re-proved on every run: numeric formulas traced from the real methods = published formulas over every
+    field (Spec/Formulas.lean), and selection rules run on order-only values for every order type = the model rules for all
+    values of any linear order (Spec/OrderType.lean, Props/OrderTie.lean)"""
+    import ties
+    return ties.regen("C07")
